@@ -29,7 +29,7 @@ EXPLANATION = (
     "value the branch conditions on the path admit (forward dataflow of constant upper bounds; a COPY_1 "
     "element reached with offset 2048 would need a twelfth offset bit); (8) carquet_zstd_compress / _decompress "
     "against a model of libzstd: OK exactly when the library finished the frame, the caller's extents handed "
-    "over unchanged, and no compression context that the wrapper keeps is left inside an unfinished frame. (8) LZ4 length extensions: every loop that emits 255-bytes while taking 255 off a counter runs exactly while the counter is >= 255 (so the byte after it is below 255), and every loop that adds length bytes reads on exactly after a 255 (R35). (9) the Snappy length preamble is LEB128 on both sides: writer and reader executed for every value on either side of a 7-bit boundary (R38). (10) src/compression holds no mutable file-scope or static-local state other than thread-local contexts and idempotent lazy tables (rule shared with C07): a codec call's result depends on its arguments only, also when calls overlap on several threads. Decides these clauses, not "
+    "over unchanged, and no compression context that the wrapper keeps is left inside an unfinished frame. (8) LZ4 length extensions: every loop that emits 255-bytes while taking 255 off a counter runs exactly while the counter is >= 255 (so the byte after it is below 255), and every loop that adds length bytes reads on exactly after a 255 (R35). (9) the Snappy length preamble is LEB128 on both sides: writer and reader executed for every value on either side of a 7-bit boundary (R38). (10) src/compression holds no mutable file-scope or static-local state other than thread-local contexts and idempotent lazy tables (rule shared with C07): a codec call's result depends on its arguments only, also when calls overlap on several threads. (R46) a staging or page buffer grown because a request does not fit is grown to at least the request: the capacity stored in a `request > capacity` branch is the request, an expression every arm of which contains it, or a value the branch compares with it (clamp or doubling loop) - geometric growth alone serves the first request and under-allocates a later one above twice the capacity. Decides these clauses, not "
     "the round trip nor sufficiency of the bound formulas.")
 
 SN = "src/compression/snappy.c"
@@ -106,6 +106,10 @@ def _gzip_traces(ctx):
 
 def run(ctx):
     P = ctx.P
+    ctx.clause("C09.11 a staging or page buffer grown because a request does not fit is grown to at least the request (R46)")
+    from ..rules import growth
+    ngr = growth.check(ctx, [f for f in P.lib_functions() if P.rel(f.file).startswith(("src/compression/", "src/writer/", "src/reader/",))])
+    ctx.count("growth_branches", ngr)
     ctx.clause("C09.1 too-small destination refused before any write; wrappers pass capacity through")
     ctx.clause("C09.2 compress_data pairs bound/compressor per codec and allocates the bound")
     ctx.clause("C09.3 match offsets fit the emitted offset width")
@@ -419,7 +423,21 @@ def _snappy_elements(ctx):
             for i, p in enumerate(el.params):
                 args.append(Ptr("out", 0, 1) if i == outi[0] else Ptr("lit", 0, 1) if "*" in p["t"] else ln)
             copies = []
-            ret, ev, heap = sem.run(P, el, args, heap0={}, hooks={"memcpy": lambda ev, a, it: copies.append((a[0].off if isinstance(a[0], Ptr) else a[0], a[2])) or a[0]},
+
+            def mc(ev, a, it, copies=copies):
+                # the copy of the literal itself is recorded; a small store through memcpy (the little-endian writers of
+                # core/endian.h) is carried out: the scalar's bytes in memory order
+                if isinstance(a[1], Ptr) and a[1].base == "lit":
+                    copies.append((a[0].off if isinstance(a[0], Ptr) else a[0], a[2]))
+                    return a[0]
+                if isinstance(a[1], tuple) and a[1] and a[1][0] == "ADDR" and isinstance(a[0], Ptr) and isinstance(a[0].off, int) and isinstance(a[2], int) and a[2] <= 8:
+                    v = (a[1][3] if len(a[1]) > 3 else it.cur_env).get(a[1][1])
+                    if isinstance(v, int):
+                        for i in range(a[2]):
+                            it.heap[(a[0].base, a[0].off + i)] = (v >> (8 * i)) & 0xFF
+                        return a[0]
+                raise sem.Inconclusive("a memcpy that is neither the literal copy nor a small scalar store")
+            ret, ev, heap = sem.run(P, el, args, heap0={}, hooks={"memcpy": mc},
                                     single=True, max_forks=4, budget=20000, on_start=lambda: copies.clear())
             tag = heap.get(("out", 0))
             if not isinstance(tag, int) or tag & 3 != 0:
